@@ -977,18 +977,18 @@ func SplitMrt(data []byte, atEOF bool) (advance int, token []byte, err error) {
 	if atEOF && len(data) == 0 {
 		return 0, nil, nil
 	}
-	if cap(data) < MRT_COMMON_HEADER_LEN { // read more
+	if len(data) < MRT_COMMON_HEADER_LEN { // read more
 		return 0, nil, nil
 	}
-	hdr, errh := ParseHeader(data[:MRT_COMMON_HEADER_LEN])
-	if errh != nil {
-		return 0, nil, errh
-	}
-	totlen := int(hdr.Len + MRT_COMMON_HEADER_LEN)
-	if len(data) < totlen { // need to read more
+	// Only the Length field of the common header is needed to frame a
+	// record (RFC 6396: for the _ET types it covers the microsecond
+	// timestamp as well). The sum is computed in 64 bits so that a huge
+	// Length cannot wrap around to a short, or empty, token.
+	totlen := uint64(binary.BigEndian.Uint32(data[8:12])) + MRT_COMMON_HEADER_LEN
+	if uint64(len(data)) < totlen { // need to read more
 		return 0, nil, nil
 	}
-	return totlen, data[:totlen], nil
+	return int(totlen), data[:totlen], nil
 }
 
 func ParseBody(data []byte, h *MRTHeader) (*MRTMessage, error) {
